@@ -503,3 +503,27 @@ def source_files_are_joined_on_line_boundaries(K, key):
     m = re.fullmatch(r"\s*" + r"(\s*)".join(re.escape(c) for c in cores) + r"\s*", out, flags=re.DOTALL) if isinstance(out, str) else None
     K.ensure("the text of every file, intact and in order, and nothing else but white space", m is not None)
     K.ensure("a line break between the last line of a file and the first line of the next", m is not None and all("\n" in g for g in m.groups()))
+
+
+# ------------------------------------------------------------------------------ shocks: where the anticipated values enter and where they do not
+SHOCK_SRC = ("!transition_variables\n x\n!transition_shocks\n e\n!measurement_variables\n obs\n!measurement_shocks\n w\n!parameters\n a, lam\n"
+             "!transition_equations\n x = a*x[-1] + e;\n!measurement_equations\n obs = x + lam*e + w;\n")
+
+
+@contract("C04", targets=["irispie.simultaneous._invariants:_introduce_anticipated_shocks_for_transition_shocks", PEQ + "xtring_from_human"],
+          instances=[("transition",), ("measurement",)], cross=4)
+def anticipated_shock_values_enter_the_transition_equations_only(K, which):
+    """A transition shock e in a TRANSITION equation stands for e plus its anticipated value ant_e (the documented way
+    anticipated shocks enter a model); a measurement equation that mentions e is evaluated as written - no ant_e."""
+    m = ir.Simultaneous.from_string(SHOCK_SRC)
+    eqs = {e.human.split("=")[0]: e for e in m._invariant.dynamic_equations}
+    n2q = m.create_name_to_qid()
+    K.ensure("the anticipated value of the transition shock is a quantity of the model", "ant_e" in n2q)
+    X, t, value = data_and_value(K, n2q)
+    if which == "transition":
+        got = K.eval_expr(eqs["x"].xtring, {"x": X, "t": t}, MK._prepare_globals(None))
+        K.ensure("x = a*x[-1] + (e + ant_e)", K.real_eq(got, read_equation(K, "x = a*x[-1] + (e + ant_e)", value)))
+    else:
+        got = K.eval_expr(eqs["obs"].xtring, {"x": X, "t": t}, MK._prepare_globals(None))
+        K.ensure("obs = x + lam*e + w, as written", K.real_eq(got, read_equation(K, "obs = x + lam*e + w", value)))
+        K.ensure("the equation is reported as written", eqs["obs"].human == "obs=x+lam*e+w")
